@@ -16,8 +16,11 @@ RULE = ('COMPLETE enumeration of the selector grammar for every plate shape up t
         'unknown-label atoms incl. 0 and n+1, all slices over them with steps {None,1,2,3,n+1}, all pairs (tuples) of atoms '
         'and slices, all "row:col" strings, lists of <= 3 singles incl. duplicates (all for <= 2x2, sampled above), the '
         'malformed families (floats, None, 3-tuples, nested tuples, bad strings); evaluations = selectors compared; '
-        'non-trivial = a selector the reference accepts that selects >= 1 well; distinct by (plate, selector); steps <= 0, '
-        'bool indices and empty selections are outside the documented grammar and not judged')
+        'non-trivial = a selector the reference accepts that selects >= 1 well; distinct by (plate, selector); steps in '
+        '{None,1,2,3,n+1,-1,-2,0}: a zero step must be rejected, a negative step is either rejected or selects backwards with both '
+        'end points included (anything else is "selecting something else"); slices of slices: every index / slice / step expression '
+        'with indices in [-n-1, n+1] on seven parent selections per plate, against numpy indexing of the parent\'s wells, each on a '
+        'fresh parent and on one whose shape and size were read first; bool indices and empty selections are not judged')
 ASSUMPTIONS = BASE_ASSUMPTIONS + ['wells are identified by object identity with plate.wells[i, j], not by name',
                                   'any exception counts as rejection']
 QUICK_SHAPES = [(1, 1), (1, 2), (2, 1), (2, 2), (1, 3), (3, 1), (2, 3), (3, 2), (3, 3), (1, 4), (4, 1)]
